@@ -215,7 +215,7 @@ def run(prop, tier):
            "traces_validated_against_impl": consumed, "samples": samples, "programs": len(cases),
            "families": gstats["families"], "schema_document_pairs_judged": ndocs, "programs_printed_flat": printed,
            "programs_where_printing_threw": threw, "printing_configurations": [c["name"] for c in CTXCFGS] + ["flat"],
-           "known_findings_hit": sorted({k for k, _ in known_hits}), "binding_selftest": neg, "exhaustive": True,
+           "known_findings_hit": sorted({k for k, _ in known_hits}), "binding_selftest": neg, "exhaustive": False, "exhaustively_enumerated_depth": max(dp for _, dp in fams),
            "calibration": "every (schema, document) verdict of JsonSchema.tla equals python jsonschema Draft 2020-12 (a mismatch is a tool error)",
            "rule": "every program of each TypeGen family x JSON probe documents x {flat, 3 contextual configurations}"}
     vlib.write_evidence(prop, tier, cov, time.time() - t0, len(violations),
